@@ -6,7 +6,6 @@ from amaranth.hdl import AlreadyElaborated
 from typing import Optional, Any, final
 from collections.abc import Iterable
 
-from transactron.utils.amaranth_ext.elaboratables import OneHotMux
 from transactron.utils.amaranth_ext.coding import Encoder
 from transactron.core import TModule
 
@@ -550,12 +549,15 @@ class MultiportILVTMemory(BaseMultiportMemory):
                     with m.Case(value):
                         m.d.comb += [bank_data.eq(m.submodules[f"bank_{value}"].read_ports[index].data)]
 
-            mux_inputs = [
-                ((write_addr_bypass[idx] == read_addr_bypass) & write_en_bypass[idx], write_data_bypass[idx])
-                for idx, write_port in enumerate(self.write_ports)
-                if write_port in read_port.transparent_for
-            ]
-            new_data = OneHotMux.create(m, mux_inputs, bank_data)
+            # transparent writes of the previous cycle replace exactly the granules they wrote
+            new_data: Value = bank_data
+            for idx, write_port in enumerate(self.write_ports):
+                if write_port not in read_port.transparent_for:
+                    continue
+                en = write_en_bypass[idx]
+                en_bits = Cat(bit.replicate(self.shape.width // len(en)) for bit in en)
+                mask = Mux(write_addr_bypass[idx] == read_addr_bypass, en_bits, 0)
+                new_data = (new_data & ~mask) | (write_data_bypass[idx] & mask)
 
             sync_data = Signal.like(read_port.data, reset_less=True)
             m.d.sync += sync_data.eq(read_port.data)
